@@ -83,6 +83,7 @@ class SyncPlan(object):
         self.pushed = []       # completed/attempted pushes: dict(path, mode, data, mtime, status)
         self.wrte_cap = None   # max WRTE payload (host's maxdata by default)
         self.hold_fail = False
+        self.early_reply = False   # replies may go on the wire BEFORE the OKAY that acknowledges the request WRTE (legal per protocol.txt; adbd itself never does it)
 
     # ---- reply shaping
     def split(self, data, cap):
@@ -172,8 +173,9 @@ class SyncService(object):
         self.protocol_errors = []
 
     def _reply(self, data, n, hold=False):
+        need = n if self.plan.early_reply else n + 1
         for chunk in self.plan.split(data, self.sim.host_maxdata):
-            self.stream.data.append(Item("WRTE", chunk, min_okays=n + 1, hold=hold))
+            self.stream.data.append(Item("WRTE", chunk, min_okays=need, hold=hold))
 
     def _close(self, n):
         self.closed = True
